@@ -15,22 +15,22 @@ def claim(i, technique, text, ref):
     CLAIMED[i] = (technique, text, ref)
 
 claim("C10", "SSA data-flow discovery of compare-and-set sites + result-tuple folding on the mismatch edge; must-pass-through Commit on wrapper returns; edge-cut guard of the composite CA write; call-site use of the boolean; comparison-not-optional edge-cut rule",
-      "Decides, for every compare-and-set function discovered by data flow (19 today) and every write-transaction wrapper (75), the structural clauses C10.1-C10.5 of DESIGN section 3: mismatch and applied results are distinguishable, true is reported only after a successful Commit and false only without one, the boolean is consumed at every call site, the composite CA operation short-circuits, the leader turns a false reply into an error. It does not decide that the comparison uses the current index for every pre-state nor atomicity across the two transactions of the composite CA operation. C10.7: with a CAS comparison's match edges removed no write is reachable (except row-absent / expected-zero / boolean mode-flag edges).",
+      "Decides, for every compare-and-set function discovered by data flow (19 today) and every write-transaction wrapper (75), the structural clauses C10.1-C10.5 of DESIGN section 3: mismatch and applied results are distinguishable, true is reported only after a successful Commit and false only without one, the boolean is consumed at every call site, the composite CA operation short-circuits, the leader turns a false reply into an error. It does not decide that the comparison uses the current index for every pre-state nor atomicity across the two transactions of the composite CA operation. C10.7: with a CAS comparison's match edges removed no write is reachable (except row-absent / expected-zero / boolean mode-flag edges). C10.8: the expected index is compared for equality, not by an ordering.",
       "DESIGN.md section 3 C10")
 
 claim("C06", "SSA must-flow (index-bump must-pass-through with callee summaries, flag-flow and bulk-delete edge refinement) over every memdb write site; backward slice of every exported reader's index; path rules on the blocking-query loop; loop-accumulator rule on the service-exists argument of the per-service index lookup; reader/writer table-coverage agreement (may-sets of tables read vs constants reaching index keys, with verified per-entity key families)",
       "Decides C06.X (the extinction index is chosen only when an accumulator updated on every iteration over the service's instances is empty), C06.W (each of the 83 non-index memdb write sites of package state is followed on every feasible non-failing path, here or in every caller, by a bump of an index key its readers consult), C06.R2 (no exported reader derives its index only from the rows it iterates), C06.Q (blocking-query loop: meta after every run, abandon channel watched, exit only on index progress/timeout/error; reported index never 0). Does not decide per-entity precision of the bumped key nor wake-up under concurrency. Also decides C06.R (for each of 96 exported readers and each table it reads through any helper, an index key naming that table — or a per-entity key every writer of the table bumps — is consulted; found and repaired four more upstream defects, two recorded) and C06.Q.raise (the loop raises its wait threshold on not-found only after a not-found pass).",
       "DESIGN.md section 3 C06")
 claim("C03", "SSA value provenance of the fields of the entry that reaches the kvs insert (CreateIndex/LockIndex/Session) under branch facts; must-not-pass-through on the equal branch; tombstone must-pass-through; prefix-index agreement",
-      "Decides the mechanism clauses C03.1-C03.7 of the KV store (index funnel, no-op set writes nothing and compares the object it stores, create index inherited, lock counter and holder provenance, tombstone on delete, conditional verbs' boolean consumed, list/tree-delete use one prefix index). Equivalence with a sequential reference map over histories is not decided. One known finding (KF2).",
+      "Decides the mechanism clauses C03.1-C03.7 of the KV store (index funnel, no-op set writes nothing and compares the object it stores, create index inherited, lock counter and holder provenance, tombstone on delete, conditional verbs' boolean consumed, list/tree-delete use one prefix index). Equivalence with a sequential reference map over histories is not decided. One known finding (KF2). C03.8: the KV check-and-set verbs compare the caller's index for equality.",
       "DESIGN.md section 3 C03")
 
 claim("C04", "call-chain funnel over resolved callers to an effect-defined invalidator (must-flow of the three session-indexed reads + downstream releasing writes); cascade must-flow with peer/critical edge refinement; edge-cut guards on lock acquire/release; who-may-call on the TTL code; loop-accumulator rule on the invalidator's collectors",
       "Decides C04.1 (every way to remove a sessions row passes through a function that releases/deletes held keys and removes check links and session-bound queries), C04.2 (node delete, check delete, critical check each feed linked sessions to the invalidator on every successful local path), C04.3 (acquire only below session-exists and absent/unheld/same-holder edges; release only below holder==requester), C04.4 (TTL expiry goes through raftApply). Does not decide the reachable-state invariant over histories. C04.5: the invalidator collects every row its by-session lookups yield.",
       "DESIGN.md section 3 C04")
 
-claim("C05", "edge-cut guard of Commit by the dispatch result; who-may-call closure over the dispatch loop (no transaction lifecycle calls, receivers are parameters, no escaping effects outside tx.Defer); must-flow ordering inside txn.Commit; path-sensitive nil-flow from the not-applied edge of each conditional verb; registry agreement of accepted vs handled verbs",
-      "Decides C05.1-C05.7: commit only below the no-errors edge with deferred abort; one transaction for everything below the dispatch loop (reads included); no effects that survive an abort except through tx.Defer (lock-delay timer listed); usage/events computed before, publish after, the memdb commit under commitLock; read-only path uses a read transaction; not-applied verbs become errors; every accepted verb has a handler. Library abort semantics are trusted.",
+claim("C05", "edge-cut guard of Commit by the dispatch result; who-may-call closure over the dispatch loop (no transaction lifecycle calls, receivers are parameters, no escaping effects outside tx.Defer); must-flow ordering inside txn.Commit; path-sensitive nil-flow from the not-applied edge of each conditional verb; registry agreement of accepted vs handled verbs; escape rule on containers of stored rows",
+      "Decides C05.1-C05.7: commit only below the no-errors edge with deferred abort; one transaction for everything below the dispatch loop (reads included); no effects that survive an abort except through tx.Defer (lock-delay timer listed); usage/events computed before, publish after, the memdb commit under commitLock; read-only path uses a read transaction; not-applied verbs become errors; every accepted verb has a handler. Library abort semantics are trusted. C05.8: no map or slice reached from a memdb read result (through field selections or a shallow struct copy) is mutated in place anywhere in package state — found and repaired a read path that wrote into a stored node row (F20).",
       "DESIGN.md section 3 C05")
 
 claim("C01", "registry agreement (registered handlers vs raftApply producers); VTA call-graph reachability from the registered handlers restricted to consul modules with boundary-call classification (pure / sanctioned sink / ambient) and local use check of every ambient result; provenance of WriteTxn indexes; order-sensitivity classification of every reachable map range; who-may-reach for goroutines/channel ops and the leader-local timers",
@@ -45,8 +45,8 @@ claim("C07", "dominance of catalog inserts by parent lookups (edge cut); cascade
       "Decides C07.1-C07.6: services/checks rows are inserted only below successful parent lookups; node and service deletes look up and delete their dependants and reach the derived-table cleanups; the services insert path always maintains kind-service-names and (for connect) the topology; usage is written only from txn.Commit; free-list/counter/assignment writes of the VIP allocator are paired; the topology row rewritten derives from the row read. Equality of derived views with a recomputation and VIP uniqueness over histories are not decided. C07.3.kind-cleanup: every local connect deregistration looks up remaining connect instances and removes the connect-enabled kind name when none remain.",
       "DESIGN.md section 3 C07")
 
-claim("C08", "finite-domain abstract interpretation of the two precedence functions over their whole input domain (25 + 15 cells); alias/mutation analysis of the merge-context maps; sibling agreement of authorizer methods (access-level constant vs method name, rule tree per resource, delegation targets); data-flow of the cache keys",
-      "Decides C08.1 (takesPrecedenceOver and enforce equal the documented order/table on every cell of their finite domain), C08.2 (no merge-map entry that aliases an input rule is written through — the F1 defect class, also for key/node/... rules), C08.3 (35 policyAuthorizer methods ask for the level their name says, 15 resources use one rule tree each, 71 delegating methods delegate to the like-named method), C08.4 (authorizer cache key folds ID and ModifyIndex of the compiled receiver). Longest-prefix selection in the radix tree is library behaviour and is not decided.",
+claim("C08", "finite-domain abstract interpretation of the two precedence functions over their whole input domain (25 + 15 cells); alias/mutation analysis of the merge-context maps; sibling agreement of authorizer methods (access-level constant vs method name, rule tree per resource, delegation targets); data-flow of the cache keys; input-immutability rule on the identity combiners",
+      "Decides C08.1 (takesPrecedenceOver and enforce equal the documented order/table on every cell of their finite domain), C08.2 (no merge-map entry that aliases an input rule is written through — the F1 defect class, also for key/node/... rules), C08.3 (35 policyAuthorizer methods ask for the level their name says, 15 resources use one rule tree each, 71 delegating methods delegate to the like-named method), C08.4 (authorizer cache key folds ID and ModifyIndex of the compiled receiver). Longest-prefix selection in the radix tree is library behaviour and is not decided. C08.5: the Deduplicate combiners never write through or sort an element of their input (the shared role objects).",
       "DESIGN.md section 3 C08")
 
 claim("C09", "registry agreement between filter call-site subject types and the filter's type switch; per-endpoint must-contain-filter check over reply types; frozen per-element-type table of authorizer questions with provenance of the name argument; structural splice/flag rules; edge-cut dominance of identity use by the IsExpired false edge; write-back rule for filters applied to local copies",
@@ -57,16 +57,16 @@ claim("C13", "finite-domain abstract interpretation of both precedence computati
       "Decides C13.1 (both precedence functions are strictly increasing destination-first, source-second over their whole domain and agree), C13.2 (the sorter compares precedence descending and one field per tie-break), C13.3 (7 list-assembling functions: sorted here or by every caller), C13.4 (first match decides), C13.5 (precedence recomputed unconditionally on normalisation and on legacy writes). Wildcard expansion of IntentionMatch for all pairs is not decided. C13.6: loops collecting intentions from an entry's Sources scan all of them.",
       "DESIGN.md section 3 C13")
 
-claim("C11", "lockset analysis (must-held locks per instruction, caller-holds escalation) over the publisher, subscription table and materializer; lock-order rule; edge-cut dominance and must-pass-through rules on the event generators, the subscription reader, the subscribe endpoint and the client handlers; registry agreement between emitted topics and registered snapshot handlers; value provenance of indexes in splice and view update",
-      "Decides the synchronisation and completeness skeleton only: C11.1 (generate before, publish after the memdb commit), C11.2 (guarded fields only under their lock; snapshot+splice+registration in one critical section; lock order), C11.3 (forced resubscription wiring from ACL/restore events to the client's reset), C11.4 (client applies snapshots atomically, resets on NewSnapshotToFollow, index only from accepted deliveries), C11.5 (every emitted topic has a snapshot handler), C11.6 (generators complete over the change kinds they distinguish: rename/destination fix-up before any early exit, deletes, mapped config entries, errors abort), C11.7 (splice at the first strictly larger index; resume only at the head; stale index gets NewSnapshotToFollow). Not decided: equality of the materialised view with the direct query under every schedule and history, the commit/publish window across transactions, the lock-free buffer.",
+claim("C11", "lockset analysis (must-held locks per instruction, caller-holds escalation) over the publisher, subscription table and materializer; lock-order rule; edge-cut dominance and must-pass-through rules on the event generators, the subscription reader, the subscribe endpoint and the client handlers; registry agreement between emitted topics and registered snapshot handlers; value provenance of indexes in splice and view update; immutability of shared event batches",
+      "Decides the synchronisation and completeness skeleton only: C11.1 (generate before, publish after the memdb commit), C11.2 (guarded fields only under their lock; snapshot+splice+registration in one critical section; lock order), C11.3 (forced resubscription wiring from ACL/restore events to the client's reset), C11.4 (client applies snapshots atomically, resets on NewSnapshotToFollow, index only from accepted deliveries), C11.5 (every emitted topic has a snapshot handler), C11.6 (generators complete over the change kinds they distinguish: rename/destination fix-up before any early exit, deletes, mapped config entries, errors abort), C11.7 (splice at the first strictly larger index; resume only at the head; stale index gets NewSnapshotToFollow). Not decided: equality of the materialised view with the direct query under every schedule and history, the commit/publish window across transactions, the lock-free buffer. C11.8: no stream function or payload method writes into an event slice it was handed (element store or x[:0]+append).",
       "DESIGN.md section 3 C11")
 
-claim("C12", "edge-cut dominance of parsing and signing by the CSR shape checks; per-identity-kind typestate over the authorization switch (right ACL question on the identity's own field, error returned, datacenter-equal edge) with exhaustiveness over the implementations of connect.CertURI; edge-cut guard of the provider's Sign by CanSign; value provenance of every x509 template's serial number to the replicated counter (through callers); who-may-write and guard dominance on the roots table; escape rule: no store through a pointer that a state-store reader hands out as the stored row",
-      "Decides C12.1 (one URI, no e-mail SAN, successful parse before signing), C12.2 (service/agent/gateway/server: …WriteAllowed on the identity's own name with its error returned; any other CertURI implementation is rejected; CanSign or trust-domain rewrite in the signing step), C12.3 (datacenter equality for service, gateway, server), C12.4 (serial numbers from the replicated counter; leaf template not a CA), C12.5 (roots table written only by the CAS setter below the exactly-one-active check, and by restore), C12.6 (no in-place mutation of stored rows anywhere in agent/consul, which is what keeps a failed rotation from deactivating the active root). Not decided: that the issued certificate verifies against the active root, provider template handling outside the built-in provider, and rotation atomicity beyond the single-transaction write.",
+claim("C12", "edge-cut dominance of parsing and signing by the CSR shape checks; per-identity-kind typestate over the authorization switch (right ACL question on the identity's own field, error returned, datacenter-equal edge) with exhaustiveness over the implementations of connect.CertURI; edge-cut guard of the provider's Sign by CanSign; value provenance of every x509 template's serial number to the replicated counter (through callers); who-may-write and guard dominance on the roots table; escape rule: no store through a pointer that a state-store reader hands out as the stored row; provenance of identity fields to the decoded URI path",
+      "Decides C12.1 (one URI, no e-mail SAN, successful parse before signing), C12.2 (service/agent/gateway/server: …WriteAllowed on the identity's own name with its error returned; any other CertURI implementation is rejected; CanSign or trust-domain rewrite in the signing step), C12.3 (datacenter equality for service, gateway, server), C12.4 (serial numbers from the replicated counter; leaf template not a CA), C12.5 (roots table written only by the CAS setter below the exactly-one-active check, and by restore), C12.6 (no in-place mutation of stored rows anywhere in agent/consul, which is what keeps a failed rotation from deactivating the active root). Not decided: that the issued certificate verifies against the active root, provider template handling outside the built-in provider, and rotation atomicity beyond the single-transaction write. C12.7: no identity field derives from an always-escaped form of the URI path except through PathUnescape, and RawPath-derived fields are unescaped under the same RawPath test.",
       "DESIGN.md section 3 C12")
 
-claim("C20", "registry agreement of archive member names between writer, reader and hash list; value-flow of each registered hash into the copy of its member; edge-cut dominance of every success return by the checksum verification; failure-only paths below mismatch / unlisted-name edges; who-may-call on raft.Restore",
-      "Decides C20.1 (writer/reader/hash-list agree on the three members; an unexpected member is an error and never skipped), C20.2 (each hash is fed on write and read; a repeated name continues the same hash), C20.3 (read succeeds only below a successful DecodeAndVerify, which rejects mismatch, unlisted name and missing checksum), C20.4 (Read/Verify succeed only below read and gzip conclusion; raft.Restore only in snapshot.Restore below a successful Read). Byte-exact round trip and detection at every corruption offset (tar/gzip framing) are not decided.",
+claim("C20", "registry agreement of archive member names between writer, reader and hash list; value-flow of each registered hash into the copy of its member; edge-cut dominance of every success return by the checksum verification; failure-only paths below mismatch / unlisted-name edges; who-may-call on raft.Restore; encode/decode type agreement",
+      "Decides C20.1 (writer/reader/hash-list agree on the three members; an unexpected member is an error and never skipped), C20.2 (each hash is fed on write and read; a repeated name continues the same hash), C20.3 (read succeeds only below a successful DecodeAndVerify, which rejects mismatch, unlisted name and missing checksum), C20.4 (Read/Verify succeed only below read and gzip conclusion; raft.Restore only in snapshot.Restore below a successful Read). Byte-exact round trip and detection at every corruption offset (tar/gzip framing) are not decided. C20.5: meta.json is encoded from and decoded into raft.SnapshotMeta.",
       "DESIGN.md section 3 C20")
 
 claim("C18", "lockset (must-flow of eventLock over read/write/commit/publish), edge-cut guards of the table write by version/UID comparisons, who-may-write on the resources table, nil-on-error contradiction rule, registry agreement of the watch topic and its snapshot handler",
@@ -81,16 +81,16 @@ claim("C19", "value provenance of every append into the deletions / upserts list
       "Decides C19.1 (4 diff functions: deletions come from the local input, upserts from the remote), C19.3 (3 merge walks drain both tails), C19.6 (a cursor only advances past a matched, scheduled or own-empty element — the seeded misalignment class), C19.4 (6 apply steps only below a non-empty difference), C19.5 (a failed apply step never lets the remote index advance). Sort key = merge key (C19.2) is not built; equality of the resulting sets for all inputs is not decided. C19.2: within a round deletions are applied before upserts (3 replicators).",
       "DESIGN.md section 3 C19")
 
-claim("C17", "value provenance of the PeerName field of every catalog request issued by the peer-stream handlers; edge-cut guards (consumer match on the exporting side, node-keyed membership tests before a service deregistration, not-in-new-list edge before the prune)",
-      "Decides C17.1 (5 deregistrations take PeerName from the handler's peer parameter; 3 registrations are built from the snapshot that stamps node, service and check), C17.2 (insertions into the exported sets only below a consumer match), C17.3 (unexported services are pruned from the stored list), C17.4 (a stored instance is deregistered unless the snapshot holds it on the same node — the seeded flat-map class). Exact reconciliation for all prior-state/snapshot pairs is not decided.",
+claim("C17", "value provenance of the PeerName field of every catalog request issued by the peer-stream handlers; edge-cut guards (consumer match on the exporting side, node-keyed membership tests before a service deregistration, not-in-new-list edge before the prune); peer-edge guard on local-only tables",
+      "Decides C17.1 (5 deregistrations take PeerName from the handler's peer parameter; 3 registrations are built from the snapshot that stamps node, service and check), C17.2 (insertions into the exported sets only below a consumer match), C17.3 (unexported services are pruned from the stored list), C17.4 (a stored instance is deregistered unless the snapshot holds it on the same node — the seeded flat-map class). Exact reconciliation for all prior-state/snapshot pairs is not decided. C17.5: in peer-aware state functions, writes to coordinates/sessions/KV/prepared-queries (directly or through helpers) lie below the peer-name-empty edge.",
       "DESIGN.md section 3 C17")
 
-claim("C14", "taint analysis from identity fields to the SPIFFE principal regex with regexp.QuoteMeta as the only sanitiser; must-flow ordering of sort / de-duplicate / convert; structural rules on the precedence-removal passes (no truncation, removal only under action == default)",
-      "Decides three necessary clauses only: C14.1 (every component of the two SPIFFE principal patterns is constant or escaped — two known findings for the unescaped trust-domain host, two reviewed exceptions for partitions), C14.2 (sort by precedence, then de-duplicate by source, then convert, then remove precedence), C14.3 (precedence removal never shortens its list and drops only default-action elements — the seeded truncation class). The semantic equivalence of the generated RBAC algebra with the intention decision for all identities and requests is NOT decided by this family.",
+claim("C14", "taint analysis from identity fields to the SPIFFE principal regex with regexp.QuoteMeta as the only sanitiser; must-flow ordering of sort / de-duplicate / convert; structural rules on the precedence-removal passes (no truncation, removal only under action == default); index-order and two-sided containment rule on the pairwise source walk",
+      "Decides three necessary clauses only: C14.1 (every component of the two SPIFFE principal patterns is constant or escaped — two known findings for the unescaped trust-domain host, two reviewed exceptions for partitions), C14.2 (sort by precedence, then de-duplicate by source, then convert, then remove precedence), C14.3 (precedence removal never shortens its list and drops only default-action elements — the seeded truncation class). The semantic equivalence of the generated RBAC algebra with the intention decision for all identities and requests is NOT decided by this family. C14.4: a source is subtracted only from lower-precedence entries and both containment directions of a pair are handled — found and repaired F21 (a lower-precedence exact-source intention deciding against a higher-precedence wildcard-source one).",
       "DESIGN.md section 3 C14")
 
 claim("C15", "must-pass-through of the graph validation before every config-entries write (escalated to callers) and inside the validator; strongly-connected-component analysis of the compiler's call graph with a memo-before-recursion must-flow rule; edge-cut dominance of the produced chain by the circular-reference check; order-sensitivity classification of every map range reachable from Compile",
-      "Decides C15.1 (every config-entry write/delete is preceded by the validator, and every accepting path of the validator test-compiles the affected chains), C15.2 (both recursive compiler functions check their memo map and record the node before recursing), C15.3 (no chain is produced when the circular-reference check fails), C15.4 (no map range reachable from Compile leaks iteration order into the chain — one genuine defect, F13, was found this way and repaired). Closure of the produced graph and termination for all entry sets are not decided.",
+      "Decides C15.1 (every config-entry write/delete is preceded by the validator, and every accepting path of the validator test-compiles the affected chains), C15.2 (both recursive compiler functions check their memo map and record the node before recursing), C15.3 (no chain is produced when the circular-reference check fails), C15.4 (no map range reachable from Compile leaks iteration order into the chain — one genuine defect, F13, was found this way and repaired). Closure of the produced graph and termination for all entry sets are not decided. C15.4 also rejects first-match selection from a map (break with several keys able to match).",
       "DESIGN.md section 3 C15")
 
 NA_REASON = {}
